@@ -6,7 +6,7 @@ import os, json, glob, itertools, time
 from concurrent.futures import ThreadPoolExecutor
 
 ID = 'C14'
-COQ_ROOTS = ['Props/C14.v', 'GenProps/Framing_consts.v']
+COQ_ROOTS = ['Props/C14.v', 'Props/C14_session.v', 'GenProps/Framing_consts.v']
 ALPHABET = [b'\n', b'#', b'0', b'1', b'9', b']', b'>', b'a', b'<']
 RULE = ('Parser level, both framing versions. (1) Mutation grammar over valid frame sequences: chunk header with a non-digit / '
         'missing # / missing LF / CRLF / huge size / size off by +-1 / size 0 / leading zeros / an invalid UTF-8 octet inside, '
@@ -509,6 +509,22 @@ def session_level(ctx):
             ctx.fail(case, 'session level, scenario %s, base 1.%d (failed %d of %d executions): %s' % (scen, base - 10, tries, tries, what), sig=sig, expected='see RULE (scenario %s)' % scen, actual=obs)
 
 
+def lts_session_clause(ctx):
+    """Session clause on the session LTS (Props/C14_session.v): real Session.run / RPC / listener threads under the
+    deterministic scheduler with framing breaks, undecodable frames, non-XML payloads, unknown / missing ids; the traces
+    must be accepted by the extracted SessionLTS model (runner LTS) and satisfy the clause's oracle."""
+    from vlib import build
+    from vlib.model import Model
+    from harness import lts_check
+    with build.Lock():
+        ok, log = build.build_runner('LTS')
+    model = Model('LTS') if ok else None
+    if not ok:
+        ctx.disagree({'lts': 'C14'}, 'LTS runner builds', log[-300:], 'extraction of Glue/LTS_glue.v')
+    q = ctx.tier == 'quick'
+    lts_check.check(ctx, 'C14', n_random=250 if q else 4000, dfs_bound=2 if q else 3, dfs_cap=120 if q else 3000, model=model)
+
+
 def run(ctx):
     P = Pipeline(ctx)
     corpus_and_witnesses(ctx, P)
@@ -518,6 +534,7 @@ def run(ctx):
     # the documented finite space (RULE (2)) was fully enumerated; the mutation grammar and the session level are samples
     ctx.exhaustive = bool(complete)
     session_level(ctx)
+    lts_session_clause(ctx)
     if not ctx.model:
         ctx.note('model runner missing: model comparisons skipped, oracles still ran')
 
@@ -566,6 +583,9 @@ def replay(doc):
     if 'case' not in doc:
         return F().replay_obligation(doc, ID)
     c = doc['case']
+    if c.get('lts') == 'C14' or ('spec' in c and 'decisions' in c):
+        from harness import lts_check
+        return lts_check.replay(doc, 'C14')
     if c.get('level') == 'session':
         ok, what, sig, obs = run_script(c)
         print('case     : session scenario %s, base 1.%d, %d pending, items %r' % (c['scenario'], c['base'] - 10, c['n_rpc'], c['items']))
